@@ -225,11 +225,12 @@ let () =
       let head = String.sub line 0 p in
       let body = String.sub line (p+1) (String.length line - p - 1) in
       if String.length head > 0 && head.[0] = 'B' then Printf.printf "%d big\n" k
-      else if String.length head > 0 && head.[0] = 'S' then run_store_case k head body
+      else if String.length head > 0 && (head.[0] = 'S' || head.[0] = 's') then run_store_case k head body
       else begin
         let hp = String.split_on_char ',' head in
         let h0 = List.nth hp 0 in
-        let var = match h0.[0] with 'K' -> VKeys | 'V' -> VVals | _ -> VPlain in
+        (* lower-case class letters: the harness runs the same script on tables with an owning key / value type *)
+        let var = match Char.uppercase_ascii h0.[0] with 'K' -> VKeys | 'V' -> VVals | _ -> VPlain in
         let nt = ios (List.nth hp 1) and ni = ios (List.nth hp 2) in
         let dcap = default_capacity in
         let ops = List.filter (fun s -> s <> "") (String.split_on_char ';' body) in
